@@ -11,6 +11,7 @@ namespace SkinnyVerif.Lemmas
 open SkinnyVerif SkinnyVerif.Spec.Skinny
 
 theorem finRange4 : List.finRange 4 = [0, 1, 2, 3] := by decide
+theorem finRange16 : List.finRange 16 = [0, 1, 2, 3, 4, 5, 6, 7, 8, 9, 10, 11, 12, 13, 14, 15] := by decide
 
 @[simp] theorem f4v0 : ((0 : Fin 4) : Nat) = 0 := rfl
 @[simp] theorem f4v1 : ((1 : Fin 4) : Nat) = 1 := rfl
